@@ -77,7 +77,7 @@ class Killer:
         return None
 
 
-def life(d, variant, flow, kill_at, big):
+def life(d, variant, flow, kill_at, big, ready_path=None):
     """The scripted life-cycle; runs in a child.  Returns the list of line
     events when kill_at is None."""
     env.setup()
@@ -96,6 +96,9 @@ def life(d, variant, flow, kill_at, big):
         ctx.close_db_conn()
         ctx = Wtp(db_path=db, quiet=True, quiet_output=True)
     # else: committed frames are still pending in the write-ahead log
+    if ready_path:
+        with open(ready_path, "w") as f:
+            f.write("phase 0 done")
     k = Killer(kill_at)
     sys.settrace(k.glob)
     try:
@@ -136,7 +139,7 @@ def verify(d):
     from wikitextprocessor import Wtp
 
     db = os.path.join(d, "pages.db")
-    files = sorted(os.listdir(d))
+    files = sorted(x for x in os.listdir(d) if x != "ready.marker")
     ctx = Wtp(db_path=db, quiet=True, quiet_output=True)
     try:
         integ = [r[0] for r in ctx.db_conn.execute("PRAGMA integrity_check")]
@@ -263,12 +266,18 @@ def sigkill_point(args):
     variant, delay_ms = args
     d = tempfile.mkdtemp(prefix="verif-c11-")
     try:
+        ready = os.path.join(d, "ready.marker")
         pid = os.fork()
         if pid == 0:
             try:
-                life(d, variant, "backup", None, True)
+                life(d, variant, "backup", None, True, ready)
             finally:
                 os._exit(0)
+        # the clock starts when the v1 content is committed (phase 0 is the
+        # script's set-up, not part of what is being killed)
+        t0 = time.time()
+        while not os.path.exists(ready) and time.time() - t0 < 60:
+            time.sleep(0.002)
         time.sleep(delay_ms / 1000.0)
         try:
             os.kill(pid, signal.SIGKILL)
@@ -342,7 +351,7 @@ def run(run):
         import random
 
         rnd = random.Random(run.seed)
-        sj = [(v, rnd.randint(40, 900)) for v in ("checkpointed", "pending-wal")
+        sj = [(v, rnd.randint(0, 400)) for v in ("checkpointed", "pending-wal")
               for _ in range(40)]
         for job, (viols, evals) in zip(sj, par.map_shards(
                 sigkill_point, [(j,) for j in sj], max(2, procs // 2))):
